@@ -54,14 +54,21 @@ def render(toks):
             elif t["k"] == "arm":
                 emit(pad + f"let _ = match ({t['id']}, 0) {{ (")
                 binders[t["id"]] = pos
-                emit(f"{t['x']}, _) => {{\n")
-                stack.append(("arm", None))
+                emit(f"{t['x']}, 0) => {{\n")
+                stack.append(("arm", 1))
             else:
                 emit(pad + f"let g{t['id']} = |")
                 binders[t["id"]] = pos
                 emit(f"{t['x']}: int32| {{\n")
                 stack.append(("closure", t["id"]))
             ind += 1
+        elif k == "arm":
+            kind, n = stack.pop()
+            pad = "    " * (ind - 1)
+            emit(pad + "    0\n" + pad + "}, (")
+            binders[t["id"]] = pos
+            emit(f"{t['x']}, {n}) => {{\n")
+            stack.append(("arm", n + 1))
         elif k == "close":
             kind, cid = stack.pop()
             ind -= 1
@@ -73,7 +80,7 @@ def render(toks):
             elif kind == "while":
                 emit(pad + "    ()\n" + pad + "};\n")
             elif kind == "arm":
-                emit(pad + "    0\n" + pad + "} };\n")
+                emit(pad + "    0\n" + pad + "}, (_, _) => { 0 } };\n")
             else:
                 emit(pad + "    0\n" + pad + f"}};\n{pad}let _ = g{cid}({cid});\n")
     out.append(EPILOGUE)
@@ -85,7 +92,7 @@ def expected_output(toks):
 
 
 def canon(toks):
-    return "|".join(f"{t['t'][0]}{t['k'][:1]}{t['x']}" for t in toks)
+    return "|".join(f"{t['t'][:2]}{t['k'][:1]}{t['x']}" for t in toks)
 
 
 def run(tier, rep):
